@@ -70,6 +70,9 @@ type stateMachine struct {
 	term  uint64
 	ch    chan interface{}
 	snaps *snapshots
+
+	// latest config entry applied, i.e. the membership in force at index
+	config Config
 }
 
 func (fsm *stateMachine) runLoop() {
@@ -126,6 +129,10 @@ func (fsm *stateMachine) onApply(t fsmApply) {
 		}
 		if e.typ == entryUpdate {
 			fsm.Update(e.data)
+		} else if e.typ == entryConfig {
+			if err := fsm.config.decode(e); err != nil {
+				panic(opError(err, "Log.Get(%d).decodeConfig", e.index))
+			}
 		}
 		fsm.index, fsm.term = e.index, e.term
 	}
@@ -141,6 +148,10 @@ func (fsm *stateMachine) onApply(t fsmApply) {
 			resp = fsm.Read(ne.cmd)
 		} else if ne.typ == entryUpdate {
 			resp = fsm.Update(ne.data)
+		} else if ne.typ == entryConfig {
+			if err := fsm.config.decode(ne.entry); err != nil {
+				panic(bug{"config.decode", err})
+			}
 		}
 		if ne.isLogEntry() {
 			fsm.index, fsm.term = ne.index, ne.term
@@ -168,9 +179,10 @@ func (fsm *stateMachine) onSnapReq(t fsmSnapReq) {
 		return
 	}
 	t.reply(fsmSnapResp{
-		index: fsm.index,
-		term:  fsm.term,
-		state: state,
+		index:  fsm.index,
+		term:   fsm.term,
+		config: fsm.config,
+		state:  state,
 	})
 }
 
@@ -184,6 +196,7 @@ func (fsm *stateMachine) onRestoreReq() error {
 		return opError(err, "FSM.Restore")
 	}
 	fsm.index, fsm.term = snap.meta.index, snap.meta.term
+	fsm.config = snap.meta.config
 	return nil
 }
 
@@ -248,6 +261,11 @@ func doTakeSnapshot(fsm *stateMachine, index uint64, config Config) (snapshotMet
 	}
 	resp := req.Result().(fsmSnapResp)
 	defer resp.state.Release()
+	if resp.config.Index > 0 {
+		// label the snapshot with the membership in force at its index,
+		// not with the one that was committed when it was requested
+		config = resp.config
+	}
 
 	// write snapshot to storage
 	sink, err := fsm.snaps.new(resp.index, resp.term, config)
@@ -333,9 +351,10 @@ type fsmSnapReq struct {
 
 // takeSnapshot() <- fsmLoop
 type fsmSnapResp struct {
-	index uint64
-	term  uint64
-	state FSMState
+	index  uint64
+	term   uint64
+	config Config
+	state  FSMState
 }
 
 // snapLoop -> raft (after snapshot taken)
